@@ -28,7 +28,7 @@ MANIFEST = {
             "coq/SMT (no tree assumption left). Other hypotheses: SHA-256 injective, bytes.ToBools injective, tree keys have the trie's "
             "key length, root comparison is equality; script keys are module-store keys (state prefix + 6 bytes). The 8-bit sub-tree "
             "storage layout of pkg/trie/smt is tied to the abstract trie by C10's correspondence, and here by comparing every root "
-            "with a from-scratch real trie. diffdb's shared-cache semantics are those repaired under C12. Three defects repaired in "
+            "with a from-scratch real trie. diffdb's shared-cache semantics are those repaired under C12. Four defects repaired in "
             "/repo, see findings/C16.json.",
 }
 IMPORTS = "From LE Require Import Exec.EventLog Exec.TxExec Exec.StateRoot Exec.Recovery Corr.C16."
@@ -99,6 +99,9 @@ def step_term(s):
     tail = "%s %s %s %s" % (r, cbool(s["rootref"]), cbool(s["treeref"]), dump(s["dump"]))
     if s["t"] == "block":
         return "(SBlock %d %s %s %s %s)" % (s["h"], clist(s.get("txs") or [], tx_term), cbool(s.get("dry", False)), EXP[s["exp"]], tail)
+    if s["t"] == "gen":
+        return "(SGen %d %s %s %s %s)" % (s["h"], clist(s.get("txs") or [], tx_term), clist(s.get("txs2") or [], tx_term),
+                                          cbool(s.get("selok", False)), tail)
     if s["t"] == "revert":
         return "(SRevert %d %s %s)" % (s["h"], EXP[s["exp"]], tail)
     return "(SInit %d %s %s)" % (s.get("last", 0), cbool(s["exp"] == "wrong"), tail)
@@ -107,7 +110,7 @@ def step_term(s):
 def evaluate(ck, recs):
     for r in recs:
         for s in r["steps"]:
-            bad = [t for t in (s.get("txs") or []) if t.get("panic")]
+            bad = [t for t in (s.get("txs") or []) + (s.get("txs2") or []) if t.get("panic")]
             if s.get("panic") or bad:
                 what = s.get("panic") or bad[0]["panic"]
                 ck.fail_case("c16:panic:%s" % s["t"], "framework code panicked (%s) in scenario %d step %s" % (what, r["id"], json.dumps(s)[:500]),
@@ -118,8 +121,10 @@ def evaluate(ck, recs):
     for r, code in zip(recs, res):
         for s in r["steps"]:
             ck.count()
-            if s["t"] == "block":
-                for t in s.get("txs") or []:
+            if s["t"] in ("block", "gen"):
+                if s["t"] == "gen":
+                    ck.nontrivial(("gen", r["id"], s["h"], s["res"], tuple(t["r"] for t in s.get("txs") or [])))
+                for t in (s.get("txs") or []) + (s.get("txs2") or []):
                     ck.count()
                     ck.nontrivial(("tx", json.dumps(t["s"], sort_keys=True), t["r"], t.get("dry", False)))
             else:
@@ -129,7 +134,8 @@ def evaluate(ck, recs):
         ix, c = code // 4, code % 4
         s = r["steps"][ix]
         spec_bad = c >= 2
-        names = {"block": "ExecuteTransaction/Commit", "revert": "Revert", "init": "Init (restart recovery)"}
+        names = {"block": "ExecuteTransaction/Commit", "revert": "Revert", "init": "Init (restart recovery)",
+                 "gen": "block generation (selectTransactionsByFee + Commit{DryRun}) then the block on a fresh context"}
         what = "%s: implementation %s (scenario %d step %d): %s" % (
             names[s["t"]], "violates the C16 oracle" if spec_bad else "differs from the proved model", r["id"], ix, json.dumps(s)[:1200])
         ck.failures.append(dict(kind="input", key="c16:%s:%s" % (s["t"], "spec" if spec_bad else "model"), what=what,
@@ -152,14 +158,22 @@ def run(ck, replay_file=None):
     if recs is None:
         return
     evaluate(ck, recs)
-    for s in recs[0]["steps"][:2] + [x for x in recs[0]["steps"] if x["t"] != "block"][:2]:
+    if not replay_file:
+        import glob, os
+        for path in sorted(glob.glob(os.path.join(os.path.dirname(os.path.dirname(os.path.dirname(os.path.abspath(__file__)))), "corpus", "C16", "*.jsonl"))):
+            crecs = ck.run_harness(binp, ["-in", path], out_name="corpus.jsonl")
+            if crecs:
+                evaluate(ck, crecs)
+    for s in recs[0]["steps"][:2] + [x for x in recs[0]["steps"] if x["t"] not in ("block",)][:2]:
         ck.sample(s)
     ck.cov["rule"] = ("scenarios = random sequences of blocks (1-4 transactions; a transaction = Before/AfterCommandExecute hooks and a command, "
                       "each a random script of set/delete/get over three module stores incl. empty keys and values, revertible and "
                       "unrevertible events incl. invalid ones, Snapshot/RestoreSnapshot on the context and on store views incl. ids that hit "
                       "ExecuteTransaction's own snapshot, then success or failure; unknown commands; dry-run executions interleaved), commits (dry run / no / right / wrong "
                       "expected root), reverts (no / right / wrong expected root) and restarts with the engine 0-2 blocks behind, ahead, or with "
-                      "a wrong root. Non-trivial/distinct: transactions distinct by (script, result); revert/restart steps distinct by "
+                      "a wrong root; block-generation steps: candidate transactions (some with failing hooks = invalid) through the real "
+                      "generator.selectTransactionsByFee on one context, Commit{DryRun}, then the selected transactions as a block on a "
+                      "fresh context whose Commit expects that root; dry-run / refused commits in the middle of a block. Non-trivial/distinct: transactions distinct by (script, result); revert/restart steps distinct by "
                       "(scenario, heights, outcome)")
     ck.extra["traces_validated_against_impl"] = len(recs)
     ck.assume += ["SHA-256 modelled as an injective, never-empty symbolic hash in the in-Coq evaluation; on the Go side every root is compared "
